@@ -87,11 +87,12 @@ package dagsync
 //@ func (*Subscriber).distributeEvents
 //@   property C14
 //@   requires subChans(s)
-//@   mayblock send:ch
+// (the only sends are those to the listeners' queues)
+//@   mayblock send:*
 //@   at recv addEventChan: assume v != nil && !closed(v) && v != s.inEvents && forall(a, 0, len(outEventsChans), outEventsChans[a] != v)
 //@   loop 1: iteration ghost n0 := len(outEventsChans)
 //@   loop 1: iteration ensures itercount("recv:inEvents") == 1 ==> len(outEventsChans) == n0
-//@   loop 1: iteration ensures itercount("recv:addEventChan") == 1 ==> len(outEventsChans) == n0 + 1 && itercount("close:ch") == 0
+//@   loop 1: iteration ensures itercount("recv:addEventChan") == 1 ==> len(outEventsChans) == n0 + 1 && itercount("close:*") == 0
 //@   loop 1: iteration ghost removed := false
 //@   at call close#2: assert arg0 == ch && !removed
 //@   at call close#2: ghost removed := true
@@ -99,7 +100,7 @@ package dagsync
 //@   loop 1: iteration ensures itercount("recv:rmEventChan") == 1 && removed ==> len(outEventsChans) == n0 - 1
 //@   loop 1: iteration ensures itercount("recv:rmEventChan") == 1 && removed ==> chansNot(outEventsChans, iterarg("recv:rmEventChan", 1))
 //@   loop 1: iteration ensures itercount("recv:rmEventChan") == 0 ==> !removed
-//@   loop 3: iteration ensures itercount("send:ch") == 1 && iterarg("send:ch", 0) == chanRef(outEventsChans[rangeindex]) && iterarg("send:ch", 1) == str(event.Cid.str) && iterarg("send:ch", 2) == str(event.PeerID) && iterarg("send:ch", 3) == event.Count
+//@   loop 3: iteration ensures itercount("send:*") == 1 && iterarg("send:*", 0) == chanRef(outEventsChans[rangeindex]) && iterarg("send:*", 1) == str(event.Cid.str) && iterarg("send:*", 2) == str(event.PeerID) && iterarg("send:*", 3) == event.Count
 //@   loop 1: invariant subChans(s) && chansNot(outEventsChans, s.inEvents)
 //@   loop 1: invariant chansOpen(outEventsChans)
 //@   loop 1: invariant chansDistinct(outEventsChans)
